@@ -2,8 +2,10 @@
 // batches (DESIGN.md §5 C19).
 //
 // C19  – sequential differential lane: one generated history per case, run on
-//        one backend configuration, every observable answer compared with a
-//        reference sorted map after every operation.
+//
+//	one backend configuration, every observable answer compared with a
+//	reference sorted map after every operation.
+//
 // C19R – concurrent lane under the race detector (race.go).
 package c19
 
@@ -43,6 +45,13 @@ func init() {
 				return 36000
 			}
 			return 1500
+		},
+		// short children: a child is done in well under a minute, so the 6 min watchdog only catches real hangs
+		Batch: func(tier string) int {
+			if tier == "thorough" {
+				return 50
+			}
+			return 25
 		},
 		Run: run,
 		Floors: func(tier string) map[string]int64 {
@@ -163,7 +172,7 @@ type env struct {
 
 	batch       dbm.Batch
 	pend        []bop
-	batchDirty  bool // ops staged since begin/reset
+	batchReused bool // the open batch went through Reset and is being used again
 	lastOp      string
 	hist        []string
 	opid        int
@@ -1048,7 +1057,6 @@ func (e *env) opBatchStage() bool {
 
 func (e *env) applyPend() (touched [][]byte) {
 	seen := map[string]int{}
-	hasEmpty := false
 	for _, o := range e.pend {
 		if o.del {
 			e.ref.del(o.k)
@@ -1056,9 +1064,6 @@ func (e *env) applyPend() (touched [][]byte) {
 			e.ref.set(o.k, o.v)
 		}
 		seen[string(o.k)]++
-		if len(o.k) == 0 {
-			hasEmpty = true
-		}
 	}
 	multi := false
 	for k, n := range seen {
@@ -1072,7 +1077,6 @@ func (e *env) applyPend() (touched [][]byte) {
 		e.multiWrites++
 		e.c.Count("batches_written_with_repeated_key", 1)
 	}
-	_ = hasEmpty
 	return touched
 }
 
@@ -1094,7 +1098,7 @@ func (e *env) opBatchEnd() bool {
 		name := []string{"Write", "Commit", "WriteSync"}[how]
 		e.log("b.%s() [%d staged ops]", name, len(e.pend))
 		e.lastOp = "batch-write" + e.pendShape()
-		if e.batchDirty {
+		if e.batchReused {
 			e.lastOp = "batch-reset-reuse-write" + e.pendShape()
 		}
 		ok := e.guard(e.lastOp, func() {
@@ -1112,13 +1116,13 @@ func (e *env) opBatchEnd() bool {
 		}
 		touched := e.applyPend()
 		e.c.Count("batches_written", 1)
-		if e.batchDirty {
+		if e.batchReused {
 			e.c.Count("batches_written_after_reset", 1)
 		}
 		e.c.Count("batch_ops_written", int64(len(e.pend)))
 		e.pend = nil
 		e.batch = nil
-		e.batchDirty = false
+		e.batchReused = false
 		if len(touched) > 6 {
 			touched = touched[:6]
 		}
@@ -1139,10 +1143,10 @@ func (e *env) opBatchEnd() bool {
 			touched = append(touched, o.k)
 		}
 		e.pend = nil
-		e.batchDirty = true
+		e.batchReused = true
 		if !keep {
 			e.batch = nil
-			e.batchDirty = false
+			e.batchReused = false
 		}
 		e.c.Count("batches_reset", 1)
 		if len(touched) > 4 {
@@ -1158,7 +1162,7 @@ func (e *env) opBatchEnd() bool {
 		}
 		e.pend = nil
 		e.batch = nil
-		e.batchDirty = false
+		e.batchReused = false
 		e.c.Count("batches_abandoned", 1)
 		if len(touched) > 4 {
 			touched = touched[:4]
@@ -1178,7 +1182,7 @@ func (e *env) opReopen() bool {
 	if e.stopped {
 		return false
 	}
-	e.batchDirty = false
+	e.batchReused = false
 	if !e.open() {
 		return false
 	}
@@ -1216,7 +1220,7 @@ func run(c *core.Ctx) {
 		e.prefix, _ = hex.DecodeString(cfg.Prefix)
 	}
 	c.Count("cases_"+e.tag, 1)
-	if c.Index%50 == 0 {
+	if c.Index%53 == 0 {
 		defer func() {
 			n := len(e.hist)
 			if n > 14 {
@@ -1293,6 +1297,22 @@ func run(c *core.Ctx) {
 	}
 }
 
+// floors: about half of the minimum observed over VERIF_SEED=1..5 at quick (1500 cases), scaled by the case count.
 func floors(tier string) map[string]int64 {
-	return map[string]int64{}
+	q := map[string]int64{
+		"ops": 70000, "full_scans": 70000, "lookups_compared": 900000, "lookups_found": 135000, "lookups_absent": 85000,
+		"iter_forward_nonempty": 16000, "iter_reverse_nonempty": 22000, "iter_prefix_nonempty": 14000, "iter_prefix_helper": 7000,
+		"batches_written": 2500, "batches_written_with_repeated_key": 1100, "batches_written_after_reset": 400,
+		"batches_reset": 900, "batches_abandoned": 700, "reopens": 2200, "reopens_with_open_batch": 1000,
+		"underlying_scans": 8000, "outside_writes": 1700, "empty_key_ops": 1000, "histories_completed": 640,
+		"cases_memdb": 95, "cases_memdb+prefixview": 95, "cases_goleveldb": 100, "cases_goleveldb+prefixview": 100,
+		"cases_bolt": 60, "cases_bolt+prefixview": 65, "cases_badger": 50, "cases_badger+prefixview": 48,
+		"bigbatch_completed": 11, "lifecycle_probes": 19, "lifecycle_writes_after_reset": 50,
+	}
+	if tier == "thorough" {
+		for k, v := range q {
+			q[k] = v * 24 // 36000 / 1500 cases
+		}
+	}
+	return q
 }
